@@ -1,4 +1,5 @@
 import MxlVerif.Lemmas.C20Cos
+import MxlVerif.Lemmas.C20Fit
 /-!
 C20 — fitting: losses measure discrepancy; fits are honest and spare the input.
 The loss definitions are `Mxl.C20.Gen.*`, written by translate/c20.py from the current fit/losses.py; the driver
@@ -427,5 +428,210 @@ last evaluated parameters. -/
 theorem C20_input_touched_without_copy :
     ((FitEnv.start false (0 : Nat)).run (fun _ p => p) [1, 2, 7]).caller = 7 := by
   decide
+
+/-! ### the fit drivers end to end (`fitDriver`): name routing, residual evaluations, wrapper, returned model -/
+
+/-- the scripted stand-in minimiser (the one the harness passes to the real drivers and the driver runs) honours the
+contract assumed of scipy: `C20_fit_honest`'s hypothesis is satisfiable by a minimiser that is actually run -/
+theorem C20_scripted_minimiser_meets_contract (cands : List (List Ext)) :
+    MinimiserContract (scriptedMinimise cands) :=
+  scriptedMinimise_contract Ext.le_refl' Ext.le_total' Ext.le_trans' cands
+
+/-- what `fitDriver` reports is the wrapper chain around the minimiser -/
+theorem fitDriver_fit {α : Type} [LE α] [DecidableLE α] (sb dc : Bool) (y0 : Option (List (String × α)))
+    (model : ModelVals α) (p0 : List (String × α)) (cands : List (List α)) (fail : Bool)
+    (residual : List (String × α) → α) :
+    (fitDriver sb dc y0 model p0 cands fail residual).fit =
+      fitWrap (localScipyCall (if fail then fun _ _ => none else scriptedMinimise cands)) residual p0 := by
+  unfold fitDriver
+  simp only
+  split <;> simp_all
+
+/-- FIT DRIVER HONEST, no hypothesis left: with the scripted minimiser a successful fit reports the residual at the
+reported parameters, it is never worse than the start's (residuals may be `inf`), names are `p0`'s -/
+theorem C20_fit_driver_honest (sb dc : Bool) (y0 : Option (List (String × Ext))) (model : ModelVals Ext)
+    (p0 : List (String × Ext)) (cands : List (List Ext)) (residual : List (String × Ext) → Ext) (f : Fit Ext)
+    (h : (fitDriver sb dc y0 model p0 cands false residual).fit = some f) :
+    f.loss = residual f.bestPars ∧ f.loss ≤ residual p0 ∧ f.bestPars.map (·.1) = p0.map (·.1) := by
+  rw [fitDriver_fit] at h
+  exact C20_fit_honest _ (C20_scripted_minimiser_meets_contract cands) residual p0 f (by simpa using h)
+
+/-- A FAILED SIMULATION IS NEVER REPORTED AS THE FIT when the start could be simulated: under the contract a finite
+residual at `p0` forces a finite reported loss (`inf` is what the residual functions return for a failed run) -/
+theorem C20_fit_never_reports_failed_simulation
+    (minimize : (List Ext → Ext) → List Ext → Option (List Ext × Ext)) (hc : MinimiserContract minimize)
+    (residualFn : List (String × Ext) → Ext) (p0 : List (String × Ext)) (fit : Fit Ext)
+    (h : fitWrap (localScipyCall minimize) residualFn p0 = some fit) (x : Rat) (h0 : residualFn p0 = .fin x) :
+    ∃ y, fit.loss = .fin y := by
+  have := (C20_fit_honest minimize hc residualFn p0 fit h).2.1
+  rw [h0] at this
+  exact Ext.le_fin_is_fin _ _ this
+
+/-- generated-table obligation: the three fit routines end with `_set_best(model, parameters)` -/
+theorem C20_fit_sets_best : Gen.fitSetsBest = true := rfl
+
+/-- DRIVER SPARES THE INPUT: with `as_deepcopy=True` the caller's model is untouched — whatever `y0`, routing,
+candidates, failure or success, and including the final `_set_best` -/
+theorem C20_driver_input_untouched {α : Type} [LE α] [DecidableLE α] (sb : Bool) (y0 : Option (List (String × α)))
+    (model : ModelVals α) (p0 : List (String × α)) (cands : List (List α)) (fail : Bool)
+    (residual : List (String × α) → α) :
+    (fitDriver sb true y0 model p0 cands fail residual).caller = model := by
+  unfold fitDriver
+  simp only
+  generalize hu : (fun (m : ModelVals α) u => (applyUpdates y0 (routeNames model (p0.map (·.1))).1
+    (routeNames model (p0.map (·.1))).2 m u).getD m) = update
+  have hrun := FitEnv.run_copy update (scriptedTrace (p0.map (·.1)) cands (p0.map (·.2)))
+    (FitEnv.start true model) (by simp [FitEnv.start])
+  generalize FitEnv.run update (FitEnv.start true model) (scriptedTrace (p0.map (·.1)) cands (p0.map (·.2))) = E at hrun
+  have hc : E.caller = model := hrun.1
+  split
+  · split
+    · simp [FitEnv.evalResidual, hrun.2, hc]
+    · exact hc
+  · exact hc
+
+/-- ... and with `as_deepcopy=False` the caller's object IS the returned model (same values) -/
+theorem C20_driver_no_copy_is_shared {α : Type} [LE α] [DecidableLE α] (sb : Bool) (y0 : Option (List (String × α)))
+    (model : ModelVals α) (p0 : List (String × α)) (cands : List (List α)) (fail : Bool)
+    (residual : List (String × α) → α) :
+    (fitDriver sb false y0 model p0 cands fail residual).caller =
+      (fitDriver sb false y0 model p0 cands fail residual).work := by
+  unfold fitDriver
+  simp only
+  generalize hu : (fun (m : ModelVals α) u => (applyUpdates y0 (routeNames model (p0.map (·.1))).1
+    (routeNames model (p0.map (·.1))).2 m u).getD m) = update
+  have hrun := FitEnv.run_alias update (scriptedTrace (p0.map (·.1)) cands (p0.map (·.2)))
+    (FitEnv.start false model) (by simp [FitEnv.start]) (by simp [FitEnv.start])
+  generalize FitEnv.run update (FitEnv.start false model) (scriptedTrace (p0.map (·.1)) cands (p0.map (·.2))) = E at hrun
+  split
+  · split
+    · simp [FitEnv.evalResidual, hrun.2]
+    · exact hrun.1
+  · exact hrun.1
+
+/-- CANDIDATE VALUES REACH THE MODEL: after the first lines of a residual function every fitted parameter the model
+has carries the candidate's value, every fitted variable too — EVEN IF `y0` names it (the candidate wins) —, and
+parameters that are not fitted keep their values -/
+theorem C20_updates_reach_the_model {α : Type} (y0 : Option (List (String × α))) (pN vN : List String)
+    (m m' : ModelVals α) (u : List (String × α)) (h : applyUpdates y0 pN vN m u = some m') :
+    (∀ n ∈ pN, hasName m.pars n = true → m'.pars.lookup n = u.lookup n) ∧
+    (∀ n ∈ vN, hasName m.vars n = true → m'.vars.lookup n = u.lookup n) ∧
+    (∀ n, n ∉ pN → m'.pars.lookup n = m.pars.lookup n) := by
+  have main : ∀ m1 : ModelVals α, m1.pars = m.pars → (∀ n, hasName m1.vars n = hasName m.vars n) →
+      ((setAll u pN m1.pars).bind fun pars => (setAll u vN m1.vars).bind fun vars =>
+        some ({ pars := pars, vars := vars } : ModelVals α)) = some m' →
+      (∀ n ∈ pN, hasName m.pars n = true → m'.pars.lookup n = u.lookup n) ∧
+      (∀ n ∈ vN, hasName m.vars n = true → m'.vars.lookup n = u.lookup n) ∧
+      (∀ n, n ∉ pN → m'.pars.lookup n = m.pars.lookup n) := by
+    intro m1 hp hv h
+    cases h2 : setAll u pN m1.pars with
+    | none => simp [h2] at h
+    | some pars =>
+      simp only [h2, Option.bind_some] at h
+      cases h3 : setAll u vN m1.vars with
+      | none => simp [h3] at h
+      | some vars =>
+        simp only [h3, Option.bind_some, Option.some.injEq] at h
+        subst h
+        refine ⟨fun n hn hl => ?_, fun n hn hl => ?_, fun n hn => ?_⟩
+        · exact (setAll_lookup u pN m1.pars pars h2 n).1 hn (by rw [hp]; exact hl)
+        · exact (setAll_lookup u vN m1.vars vars h3 n).1 hn (by rw [hv]; exact hl)
+        · rw [(setAll_lookup u pN m1.pars pars h2 n).2.1 hn, hp]
+  cases y0 with
+  | none =>
+    simp only [applyUpdates, Option.bind_eq_bind, Option.bind_some] at h
+    exact main m rfl (fun _ => rfl) h
+  | some y =>
+    simp only [applyUpdates, Option.bind_eq_bind] at h
+    cases h1 : updateVariables m y with
+    | none => simp [h1] at h
+    | some m1 =>
+      simp only [h1, Option.bind_some] at h
+      have := hasName_updateVariables y m m1 h1
+      exact main m1 this.1 this.2 h
+
+/-- NAME ROUTING: a name of `p0` is routed to the parameters exactly when the model has such a parameter, to the
+variables exactly when it has such a variable; a name that is neither reaches NOTHING (the residual cannot depend on it) -/
+theorem C20_name_routing {α : Type} (m : ModelVals α) (names : List String) (n : String) :
+    (n ∈ (routeNames m names).1 ↔ n ∈ names ∧ hasName m.pars n = true) ∧
+    (n ∈ (routeNames m names).2 ↔ n ∈ names ∧ hasName m.vars n = true) := by
+  simp [routeNames, List.mem_filter]
+
+/-- THE RETURNED MODEL IS AT THE REPORTED PARAMETERS: with `_set_best` (the generated shape) `Fit.model` is the working
+model after one more assignment of `best_pars` through the same routing (without `y0`); without it the returned model
+is wherever the minimiser's LAST evaluation left it -/
+theorem C20_returned_model_at_best {α : Type} [LE α] [DecidableLE α] (dc : Bool) (y0 : Option (List (String × α)))
+    (model : ModelVals α) (p0 : List (String × α)) (cands : List (List α)) (fail : Bool)
+    (residual : List (String × α) → α) (f : Fit α)
+    (h : (fitDriver Gen.fitSetsBest dc y0 model p0 cands fail residual).fit = some f) :
+    let last := (fitDriver false dc y0 model p0 cands fail residual).work
+    (fitDriver Gen.fitSetsBest dc y0 model p0 cands fail residual).work =
+      (applyUpdates none (routeNames model (p0.map (·.1))).1 (routeNames model (p0.map (·.1))).2 last f.bestPars).getD last := by
+  rw [fitDriver_fit] at h
+  simp only [C20_fit_sets_best]
+  unfold fitDriver
+  simp only [h, FitEnv.evalResidual, Bool.false_eq_true, if_false, if_true]
+
+/-- ENSEMBLE: failed fits are dropped, the others are kept in order -/
+theorem C20_ensemble_keeps_successes {α : Type} (fits : List (Option (Fit α))) (f : Fit α) :
+    f ∈ ensembleFits fits ↔ some f ∈ fits := by
+  simp [ensembleFits, List.mem_filterMap]
+
+/-- BEST FIT IS LEAST: `get_best_fit` returns a member of the ensemble whose loss is below every member's
+(`inf` losses included); it fails only on an empty ensemble -/
+theorem C20_best_fit_is_least (fits : List (Fit Ext)) :
+    (getBestFit fits = none ↔ fits = []) ∧
+    ∀ f, getBestFit fits = some f → f ∈ fits ∧ ∀ g ∈ fits, f.loss ≤ g.loss := by
+  cases fits with
+  | nil => simp [getBestFit]
+  | cons f0 rest =>
+    refine ⟨by simp [getBestFit], ?_⟩
+    intro f hf
+    simp only [getBestFit, Option.some.injEq] at hf
+    have := bestFit_fold_inv Ext.le_refl' Ext.le_total' Ext.le_trans' rest f0 [f0] (by simp)
+      (by intro g hg; simp at hg; subst hg; exact Ext.le_refl' _)
+    simp only [hf, List.singleton_append] at this
+    exact this
+
+/-- JOINT RESIDUAL: the sum is `inf` exactly when one of the residuals is (a failed simulation in ANY of the
+settings fails the candidate), and otherwise the sum of the numbers -/
+theorem C20_joint_residual_is_sum (rs : List Ext) :
+    (sumResiduals rs = .inf ↔ .inf ∈ rs) ∧
+    ∀ xs : List Rat, rs = xs.map .fin → sumResiduals rs = .fin (xs.foldl (· + ·) 0) := by
+  have key : ∀ (rs : List Ext) (a : Rat),
+      (rs.foldl (· + ·) (Ext.fin a) = .inf ↔ .inf ∈ rs) ∧
+      ∀ xs : List Rat, rs = xs.map .fin → rs.foldl (· + ·) (Ext.fin a) = .fin (xs.foldl (· + ·) a) := by
+    intro rs
+    induction rs with
+    | nil => intro a; refine ⟨by simp, ?_⟩; intro xs h; cases xs <;> simp_all
+    | cons r rs ih =>
+      intro a
+      cases r with
+      | fin x =>
+        have e : (Ext.fin a + Ext.fin x) = Ext.fin (a + x) := rfl
+        simp only [List.foldl_cons, e]
+        refine ⟨by simpa using (ih (a + x)).1, ?_⟩
+        intro xs h
+        cases xs with
+        | nil => simp at h
+        | cons y ys =>
+          simp only [List.map_cons, List.cons.injEq, Ext.fin.injEq] at h
+          obtain ⟨rfl, h⟩ := h
+          simpa using (ih (a + x)).2 ys h
+      | inf =>
+        have e : (Ext.fin a + Ext.inf) = Ext.inf := rfl
+        have hinf : ∀ l : List Ext, l.foldl (· + ·) Ext.inf = .inf := by
+          intro l
+          induction l with
+          | nil => rfl
+          | cons z l ihl => simp only [List.foldl_cons]; have : (Ext.inf + z) = Ext.inf := by cases z <;> rfl
+                            rw [this]; exact ihl
+        simp only [List.foldl_cons, e, hinf]
+        refine ⟨by simp, ?_⟩
+        intro xs h
+        cases xs with
+        | nil => simp at h
+        | cons y ys => simp at h
+  exact key rs 0
 
 end Mxl.C20
